@@ -28,8 +28,27 @@ InitChildren(z) ==
       kept == SelectSeq(all, LAMBDA x : x.keep)
   IN [j \in 1..Len(kept) |-> [name |-> kept[j].name, traits |-> kept[j].traits]]
 
-Prog(k) == [model |-> "parent", n |-> k, cfg |-> [init |-> InitChildren(k)],
-            ops |-> [j \in 1..R(10..MaxOps) |-> Op(k)]]
+\* a random permutation of a sequence
+RECURSIVE Shuffle(_, _)
+Shuffle(z, s) == IF s = <<>> THEN <<>>
+                 ELSE LET i == RandomElement(1..Len(s))
+                      IN <<s[i]>> \o Shuffle(z, [j \in 1..(Len(s) - 1) |-> IF j < i THEN s[j] ELSE s[j + 1]])
+\* the items of one kind spread over options: all in one, one each, or split in two
+Groups(z, items) ==
+  IF items = <<>> THEN <<>>
+  ELSE LET how == Pick(z, <<"one", "each", "split">>)
+           i == RandomElement(1..Len(items))
+       IN IF how = "one" \/ (how = "split" /\ i = Len(items)) THEN <<items>>
+          ELSE IF how = "each" THEN [j \in 1..Len(items) |-> <<items[j]>>]
+          ELSE <<SubSeq(items, 1, i), SubSeq(items, i + 1, Len(items))>>
+
+Prog(k) ==
+  LET gs == Groups(k, InitChildren(k))
+      none == [kind |-> "clock", children |-> <<>>, via |-> "model"]
+      opts == Shuffle(k, [j \in 1..Len(gs) |-> [none EXCEPT !.kind = "children", !.children = gs[j], !.via = Pick(k, <<"model", "model", "resource">>)]]
+                         \o (IF Flip(k, 50) THEN <<none>> ELSE <<>>))
+  IN [model |-> "parent", n |-> k, cfg |-> [opts |-> opts, init |-> ConfChildren(opts)],
+      ops |-> [j \in 1..R(10..MaxOps) |-> Op(k)]]
 
 GenInit == c \in { Prog(k) : k \in 1..NCases }
 GenNext == UNCHANGED c
